@@ -51,6 +51,8 @@ type rtCheck struct {
 	// driven in addition to the check's own designs; StreamPerMethod the cases per streaming method.
 	StreamSpecs     [2]int
 	StreamPerMethod [2]int
+	// Unions lets a share of the check's designs carry OneOf attributes in request/response bodies (gen/union.go).
+	Unions bool
 }
 
 type rtWitness struct {
@@ -156,7 +158,7 @@ func runRuntime(c *rtCheck) {
 		var specs []*spec.Spec
 		for i := 0; i < n; i++ {
 			prof := c.Profiles[(idx+i)%len(c.Profiles)]
-			s := gen.Generate(run.Rand(2, uint64(idx+i)), fmt.Sprintf("%d", idx+i), gen.Opts{Profile: prof, Runtime: true, Thorough: run.Thorough(), Files: c.AllowFiles, Streams: c.Streams})
+			s := gen.Generate(run.Rand(2, uint64(idx+i)), fmt.Sprintf("%d", idx+i), gen.Opts{Profile: prof, Runtime: true, Thorough: run.Thorough(), Files: c.AllowFiles, Streams: c.Streams, Unions: c.Unions})
 			s.AddFeature("profile-" + prof)
 			specs = append(specs, s)
 		}
@@ -373,6 +375,7 @@ func runDesigns(run *vc.Run, c *rtCheck, dir string, specs []*spec.Spec, mk func
 				continue
 			}
 			conclusive++
+			countUnions(run, ex) // union.go
 			for _, f := range v.Findings {
 				if verbose {
 					fmt.Printf("FINDING %s: %s\n", f.Key, f.What)
@@ -394,6 +397,9 @@ func runDesigns(run *vc.Run, c *rtCheck, dir string, specs []*spec.Spec, mk func
 		}
 		if conclusive > 0 {
 			run.Count("designs_driven", 1)
+			if hasFeature(d.Spec, "union") {
+				run.Count("union_designs_driven", 1)
+			}
 			for _, ex := range r.exs {
 				if ex.Stream != nil && ex.Stream.Watchdog == "" {
 					run.Count("stream_designs_driven", 1)
